@@ -113,6 +113,15 @@ class DocActions(object):
     self._engine.out_actions.undo.append(actions.ReplaceTableData(*old_data))
     self._engine.out_actions.summary.remove_records(table_id, old_data[1])
     self._engine.out_actions.summary.add_records(table_id, row_ids)
+
+    # As when removing records: let all columns (lookup indexes in particular) forget the old
+    # rows, and invalidate them, so that whatever depends on them gets recomputed.
+    table = self._engine.tables[table_id]
+    for column in table.all_columns.values():
+      for row_id in old_data.row_ids:
+        column.unset(row_id)
+    self._engine.invalidate_records(table_id, old_data.row_ids)
+
     self._engine.load_table(actions.TableData(table_id, row_ids, column_values))
 
   #----------------------------------------
